@@ -24,7 +24,7 @@ EXPLANATION = (
 )
 BOUNDS = {
     "quick": dict(labels="2..3", histories="twice, reconf, renodes, engine2, subset, stale, interleaved engines (<= 6 engine calls); all permutations of <= 3 labels", value_box="positions in [-20,130], widths in (0,80], spacing in [0,10]; bounds (0,100) and (None,100)"),
-    "thorough": dict(labels="1..3, 4 for compute-twice with the overlap algorithm", grid="bounds {(0,100),(None,100),(0,60)}, density {0.85,0.5}, stubWidth {1,5}"),
+    "thorough": dict(labels="1..3", grid="bounds {(0,100),(None,100),(0,60)}, density {0.85,0.5}, stubWidth {1,5}"),
 }
 OUTSIDE = ["more than 4 labels / 6 engine calls", "labels sharing a data position with different widths (their order follows the input order, by the statement)"]
 ASSUMPTIONS = [
@@ -44,7 +44,6 @@ def configs(tier):
     else:
         c = F([1, 2], bounds=((0, 100), (None, 100), (0, 60)), dens=(0.85, 0.5), stubws=(1, 5), hists=hs)
         c += F([3], algs=("overlap", "simple"), bounds=((0, 100), (0, 60)), hists=hs, shards=4)
-        c += F([4], algs=("overlap",), bounds=((0, 100),), hists=("twice",), shards=16)
         perm_ns = [2, 3]
     for n in perm_ns:
         for alg in ("overlap", "simple", "none"):
